@@ -1,5 +1,6 @@
 import GlyProofs.Front.Accept
 import GlyProofs.Front.AtnSound
+import GlyProofs.Front.AtnRtn
 import GlyModel.Generated.Atn
 import GlyModel.Generated.LexAtn
 import GlyProofs.Front.LexAtnFG
@@ -117,5 +118,23 @@ theorem C15_lexer_atn_matches_token_table (i : Nat) (hi : i < Gen.lexRules.lengt
       · rw [e2]; exact lex_SAC_ok
       · simpa [e1, e2] using h3
   exact lexRuleOk_sound _ _ hall
+
+open Gly.Atn in
+/-- **The language of the serialized parser ATN is the language of `Glycan.g4`.** The token languages of the grammar's rules
+    (`D g r w` = rule `r` derives the token string `w`, the notion `C15_accept_iff` is stated in) are the *least solution* of the
+    recursive-transition-network equations of the ATN regenerated from `GlycanParser.py`: (i) rule `r` derives `w` iff `w` is the
+    expansion of a word accepted by `r`'s sub-automaton, every token type expanded by a token of that type and every rule reference by
+    a string that rule derives; (ii) every family of languages closed under these equations contains them. -/
+theorem C15_parser_atn_language :
+    (∀ r, r < Gen.grammar.rules.length → ∀ w, D Gen.grammar r w ↔
+        ∃ σ, Path (Gen.parserAtn.getD r default) (Gen.parserAtn.getD r default).start σ (Gen.parserAtn.getD r default).stop ∧
+          Expand (D Gen.grammar) σ w) ∧
+    (∀ Y, RtnClosed Gen.parserAtn Y → (∀ r, Gen.grammar.rules.length ≤ r → ∀ w, D Gen.grammar r w → Y r w) →
+        ∀ r w, D Gen.grammar r w → Y r w) := by
+  apply rtn_language
+  intro r hr
+  have h2 := atn_rules_ok.2
+  rw [List.all_eq_true] at h2
+  exact h2 r (List.mem_range.mpr hr)
 
 end Gly.Props.C15
